@@ -83,6 +83,9 @@
   static inline void N##_pop_back(struct N *v) { V_GUARD(v); V_ABS_HOOK(v, 2); __CPROVER_assert(v->size > 0, "vector::pop_back on a non-empty vector"); v->size--; } \
   static inline void N##_pop_front(struct N *v) { V_GUARD(v); __CPROVER_assert(v->size > 0, "deque::pop_front on a non-empty container"); v->size--; } \
   static inline T *N##_index(struct N *v, size_t i) { V_GUARD(v); __CPROVER_assert(i < v->size, "vector::operator[] index in range"); return N##_any(); } \
+  static inline T *N##_at(struct N *v, size_t i) { V_GUARD(v); if (i >= v->size) { __exc = V_EXC_OUT_OF_RANGE; return &N##_cell; } return N##_any(); } \
+  static inline void N##_resize(struct N *v, size_t n) { V_GUARD(v); __CPROVER_assert(n < V_MAXSZ, "vector::resize below the modelled maximum"); v->size = n; } \
+  static inline T *N##_data(struct N *v) { V_GUARD(v); return &N##_cell; }   /* storage is abstract: only a stub may take this pointer */ \
   static inline T *N##_back(struct N *v) { V_GUARD(v); __CPROVER_assert(v->size > 0, "vector::back on a non-empty vector"); return N##_any(); } \
   static inline T *N##_front(struct N *v) { V_GUARD(v); V_ABS_HOOK(v, 3); __CPROVER_assert(v->size > 0, "vector::front on a non-empty vector"); return N##_any(); }
 #endif
